@@ -46,7 +46,7 @@ theorem C07_permute_rejects_dense [Zero α] (T : Dense α) (p : List Nat)
 /-- The pinned code answered the non-permutation `[1,1]` with a copy. -/
 theorem C07_permute_pinned_counterexample :
     Dense.permuteG false (⟨[2, 2], [1, 2, 3, 4]⟩ : Dense Int) [1, 1] = .ok ⟨[2, 2], [1, 2, 3, 4]⟩ ∧
-    Dense.permute (⟨[2, 2], [1, 2, 3, 4]⟩ : Dense Int) [1, 1] = .error .reject := by decide
+    Dense.permute (⟨[2, 2], [1, 2, 3, 4]⟩ : Dense Int) [1, 1] = .error .reject := ⟨rfl, rfl⟩
 
 /-- `tensor.reshape(s')` (first index fastest): the entry at `j` is the operand's entry with
 the same linear index. -/
@@ -65,11 +65,13 @@ theorem C07_reshape_rejects (T : Dense α) (S : Sparse α) (s' : List Nat) :
     (numel s' ≠ numel S.shape → S.reshape s' none = .error .reject) := reshape_rejects T S s'
 
 /-- `tensor.squeeze()`: the modes of extent one disappear, every entry keeps its value; a
-tensor with a single cell becomes that scalar. -/
+tensor with a single cell becomes that scalar.  (A 0-way tensor has no mode to drop and is
+returned as it is: `np.all` of an empty array is true, so the code copies; hence the result
+shape is non-empty only when the operand has at least one mode.) -/
 theorem C07_squeeze_at_dense [Zero α] (T : Dense α) (hT : T.WF) (hpos : ∀ e ∈ T.shape, 1 ≤ e) :
     match T.squeeze with
     | .scalar v => (∀ e ∈ T.shape, e = 1) ∧ v = T.get (T.shape.map (fun _ => 0))
-    | .obj P => P.shape = T.shape.filter (· > 1) ∧ P.WF ∧ P.shape ≠ [] ∧
+    | .obj P => P.shape = T.shape.filter (· > 1) ∧ P.WF ∧ (T.shape ≠ [] → P.shape ≠ []) ∧
         ∀ i, InBounds T.shape i → P.get (dropSingletons T.shape i) = T.get i :=
   squeeze_at_dense T hT hpos
 
@@ -115,8 +117,10 @@ theorem C07_sp_reshape_partial [Add α] [Zero α] [BEq α] (S : Sparse α) (s' o
              ind2sub s' (sub2ind (gather S.shape om) (gather i om))) = S.get i :=
   sp_reshape_partial S s' om hS hom hn i hi
 
-/-- `sptensor.squeeze()` keeps every stored value and drops the singleton coordinates. -/
-theorem C07_squeeze_at_sparse [Add α] [Zero α] [BEq α] (S : Sparse α) (hS : S.WF)
+/-- `sptensor.squeeze()` keeps every stored value and drops the singleton coordinates.
+(`Sparse.get` is a sum over the stored values, so the scalar case needs `v + 0 = v`: the value
+type is an additive monoid.) -/
+theorem C07_squeeze_at_sparse [AddMonoid α] [BEq α] (S : Sparse α) (hS : S.WF)
     (hpos : ∀ e ∈ S.shape, 1 ≤ e) :
     match S.squeeze with
     | .ok (.scalar v) => (∀ e ∈ S.shape, e = 1) ∧ v = S.get (S.shape.map (fun _ => 0))
@@ -134,7 +138,6 @@ theorem C07_permute_at_ktensor [CommSemiring α] (K : Ktensor α) (p : List Nat)
       P.get j = K.get (gather j (invPerm p)) := permute_at_ktensor K p hp j hj
 
 example : isPermOf [2, 0, 1] 3 = true ∧ invPerm [2, 0, 1] = [1, 2, 0] := by decide
-example : (⟨[2, 3], [1, 2, 3, 4, 5, 6]⟩ : Dense Int).permute [1, 0] = .ok ⟨[3, 2], [1, 3, 5, 2, 4, 6]⟩ := by
-  decide
+example : (⟨[2, 3], [1, 2, 3, 4, 5, 6]⟩ : Dense Int).permute [1, 0] = .ok ⟨[3, 2], [1, 3, 5, 2, 4, 6]⟩ := rfl
 
 end Pyttb
